@@ -9,7 +9,7 @@ cd /verif
 git -C /repo worktree add -q --detach $WT HEAD || exit 3
 [ -f $WT/Cargo.lock ] || cp /repo/Cargo.lock $WT/
 git -C $WT apply /verif/seeded/$ID/patch.diff || { echo "seed=$ID cannot apply"; git -C /repo worktree remove --force $WT; exit 3; }
-VERIF_REPO=$WT ./check $PROP --tier quick "$@" > /verif/seeded/$ID/check_$PROP.log 2>&1; RC=$?
+VERIF_REPLAY_DIR=/verif/seeded/$ID/replays VERIF_REPO=$WT ./check $PROP --tier quick "$@" > /verif/seeded/$ID/check_$PROP.log 2>&1; RC=$?
 git -C /repo worktree remove --force $WT
 echo "seed=$ID check=$PROP rc=$RC $(grep -E '^VIOLATION' /verif/seeded/$ID/check_$PROP.log | head -2 | tr '\n' ' ')"
 grep -E "^INCONCLUSIVE|^  obligation" /verif/seeded/$ID/check_$PROP.log | head -4
